@@ -464,7 +464,11 @@ package graphql
 //@   props C06 C07
 //@   nosafety
 //@   assigns class:list., class:atomic., class:M|string|*list.Element, class:graphql.planCacheEntry, class:graphql.planCacheItem
-//@   requires c != nil && !held(&c.mu) && c.entries != nil && c.order != nil && c.order.len >= 0
+//@   requires c != nil
+//@   requires !held(&c.mu)
+//@   requires c.entries != nil
+//@   requires c.order != nil
+//@   requires c.order.len >= 0
 //@   ensures !held(&c.mu)
 //@   ensures old(has(c.entries, key)) ==> has(c.entries, key) && as(c.entries[key].Value, "*graphql.planCacheItem").e.schema == schema && as(c.entries[key].Value, "*graphql.planCacheItem").e.result == pr
 //@   ensures old(c.order.len) <= c.opts.MaxEntries && c.opts.MaxEntries >= 0 ==> c.order.len <= c.opts.MaxEntries
